@@ -56,11 +56,15 @@ Theorem c10_derived_accepted : forall pk, wf_pub pk -> id_from_bytes (id_from_pu
 Proof. exact id_from_bytes_accepts_derived. Qed.
 Print Assumptions c10_derived_accepted.
 
-(* ExtractPublicKey only ever returns a 32-byte key, and only from an ID that IDFromBytes accepts *)
+(* ExtractPublicKey succeeds exactly on the ID derived from the key it returns *)
 Theorem c10_extract_sound : forall id pk, extract_pub id = Ok pk ->
-  zlen pk = ed25519_pub_size /\ id_from_bytes id = Ok id.
+  id = id_from_pub pk /\ zlen pk = ed25519_pub_size /\ id_from_bytes id = Ok id.
 Proof. exact extract_pub_sound. Qed.
 Print Assumptions c10_extract_sound.
+
+Theorem c10_extract_iff : forall pk, wf_pub pk -> forall id, extract_pub id = Ok pk <-> id = id_from_pub pk.
+Proof. exact extract_pub_iff. Qed.
+Print Assumptions c10_extract_iff.
 
 (* the accepted IDs are self-delimiting (used by C32: session id injectivity) *)
 Theorem c10_wf_prefix_free : forall a c x y, wf_id a -> wf_id c -> a ++ x = c ++ y -> a = c.
@@ -85,12 +89,13 @@ Theorem c10_text_rejects_nonalphabet : forall s c, In c s -> b58_digit c = None 
 Proof. intros s c H1 H2. unfold idb58_decode. rewrite (b58_decode_rejects_nonalpha s c H1 H2). reflexivity. Qed.
 Print Assumptions c10_text_rejects_nonalphabet.
 
-(* recorded limit of the statement: non-minimal varints are accepted, so an
-   accepted ID can carry a key that it does not match *)
-Theorem c10_noncanonical_accepted :
-  exists b pk, id_from_bytes b = Ok b /\ extract_pub b = Ok pk /\ wf_pub pk /\ matches_pub b pk = false.
-Proof. exact id_noncanonical_accepted. Qed.
-Print Assumptions c10_noncanonical_accepted.
+(* recorded limit: IDFromBytes accepts non-minimal varints (Go's Uvarint), so an
+   accepted byte string need not be a derived ID; ExtractPublicKey refuses those *)
+Theorem c10_noncanonical_no_key :
+  id_from_bytes noncanonical_example = Ok noncanonical_example /\
+  extract_pub noncanonical_example = Err ENotCanonical.
+Proof. exact id_noncanonical_no_key. Qed.
+Print Assumptions c10_noncanonical_no_key.
 
 (* non-vacuity *)
 Example c10_nonvacuous_key : wf_pub (repeat 255 32) /\ wf_pub (repeat 0 32) /\
